@@ -286,6 +286,45 @@ def single_node_fn(case):
     return r
 
 
+def nodeaxis_fn(case):
+    """Requests at exactly a tabulated pressure, for every two-significant-digit pressure m x 10^e (given in Pa, or in bar
+    and converted as the file readers do): the node sits at the bottom, in the middle and at the top of the pressure
+    axis, and the temperature is below, on, inside and above the temperature axis.  A node is inside the grid: the
+    answer is the tabulated value there (the nearest temperature edge outside it), never the zero of the corner below
+    both minima, whatever the last digit of the logarithm of the pressure rounds to."""
+    r = core.R(case)
+    fx.reset_caches()
+    e, unit, mode, lay = case['e'], case['unit'], case['mode'], case['layout']
+    Tg = fx.T_GRIDS[3]
+    wn = fx.WN_GRIDS[4]
+    x = fx.table(3, 3, 4, 1e-24, salt=('c04-nodeaxis',))
+    isk = lay != 'xsec'
+    if isk:
+        x = x[..., None] * np.array([1.0, 2.5])[None, None, None, :]
+    n = 0
+    for m_ in range(1, 100):
+        p0 = float('%de%d' % (m_, e))
+        if unit == 'bar':
+            p0 = p0 * 1e5
+        for pos, Pg in (('bottom', [p0, p0 * 1e2, p0 * 1e5]), ('middle', [p0 * 1e-2, p0, p0 * 1e3]),
+                        ('top', [p0 * 1e-5, p0 * 1e-2, p0])):
+            Pg = np.array(Pg, dtype=float)
+            if isk:
+                op = fx.TinyK('H2O', wn, Tg, Pg, x, [0.4, 0.6], mode)
+            else:
+                op = fx.TinyOp('H2O', wn, Tg, Pg, x, mode)
+            for tn, T in (('below', 100.0), ('min', Tg[0]), ('cell', 600.0), ('max', Tg[-1]), ('above', 3000.0)):
+                got = np.asarray(op.opacity(T, p0, None), dtype=float)
+                want = opac.interp_opacity(x, Tg, Pg, min(max(T, Tg[0]), Tg[-1]), p0, mode, zero_corner=False)
+                n += 1
+                r.eq(got, want, 'node-on-pressure-axis', 'nodeaxis/%s/T=%s/%s/%s' % (pos, tn, mode, 'ktable' if isk else 'xsec'),
+                     rtol=1e-9, T=T, P=p0, pressure_grid=Pg)
+    r.count('requests', n)
+    r.observe(n)
+    r.nontrivial = True
+    return r
+
+
 def bigtable_fn(case):
     """A table with more spectral points than any power-of-two block an interpolation kernel might work in: every
     wavenumber of the interior, edge and outside answers against the reference."""
@@ -331,6 +370,10 @@ def explore(ctx):
     sn = [{'shape': list(sh), 'mode': mode, 'layout': lay} for sh in ((1, 3), (3, 1), (1, 2), (2, 1), (1, 1))
           for mode in ('linear', 'exp') for lay in LAYOUTS]
     ctx.run_cases('single_node_fn', sn, phase='single-node')
+    es = range(-8, 9) if ctx.tier == 'thorough' else range(-6, 7)
+    na = [{'e': e_, 'unit': u_, 'mode': md, 'layout': lay} for e_ in es for u_ in ('Pa', 'bar')
+          for md, lay in (('linear', 'xsec'), ('exp', 'xsec'), ('exp', 'k2'))]
+    ctx.run_cases('nodeaxis_fn', na, phase='pressure-nodes')
     shapes = [(2, 2), (2, 3), (3, 2), (3, 3)]
     if ctx.tier == 'thorough':
         shapes += [(4, 4), (2, 4), (4, 3), (4, 2), (3, 4)]
